@@ -122,6 +122,42 @@ Print Assumptions mat_mul_eye_r.
 Example mat_mul_eye_r_nonvacuous : RingLaws AQ /\ wf (mkM (A:=AQ) [q 1 1; q 2 1; q 3 1; q 4 1; q 5 1; q 6 1] 2 3).
 Proof. split; [|reflexivity]. constructor. exact (F_R AQ_field). Qed.
 
+(* algebra over a commutative ring, through the code's own products / sums / transposes, for every conformable shape *)
+Theorem mat_mul_assoc : forall (A : Arith), RingLaws A -> forall a b c : matrix A,
+  wf a -> wf b -> wf c -> cols a = rows b -> cols b = rows c ->
+  exists ab bc p, mat_mul a b = Ok ab /\ mat_mul b c = Ok bc /\ mat_mul ab c = Ok p /\ mat_mul a bc = Ok p.
+Proof. exact (@MatrixExt.mat_mul_assoc). Qed.
+Check mat_mul_assoc : forall (A : Arith), RingLaws A -> forall a b c : matrix A,
+  wf a -> wf b -> wf c -> cols a = rows b -> cols b = rows c ->
+  exists ab bc p, mat_mul a b = Ok ab /\ mat_mul b c = Ok bc /\ mat_mul ab c = Ok p /\ mat_mul a bc = Ok p.
+Print Assumptions mat_mul_assoc.
+
+Theorem mat_mul_transpose : forall (A : Arith), RingLaws A -> forall a b : matrix A,
+  wf a -> wf b -> cols a = rows b ->
+  exists p ta tb tp, mat_mul a b = Ok p /\ transpose a = Ok ta /\ transpose b = Ok tb /\
+                     transpose p = Ok tp /\ mat_mul tb ta = Ok tp.
+Proof. exact (@MatrixExt.mat_mul_transpose). Qed.
+Check mat_mul_transpose : forall (A : Arith), RingLaws A -> forall a b : matrix A,
+  wf a -> wf b -> cols a = rows b ->
+  exists p ta tb tp, mat_mul a b = Ok p /\ transpose a = Ok ta /\ transpose b = Ok tb /\
+                     transpose p = Ok tp /\ mat_mul tb ta = Ok tp.
+Print Assumptions mat_mul_transpose.
+
+Theorem mat_mul_add_distr_l : forall (A : Arith), RingLaws A -> forall a b c : matrix A,
+  wf a -> wf b -> wf c -> cols a = rows b -> rows b = rows c -> cols b = cols c ->
+  exists s ab ac p, madd b c = Ok s /\ mat_mul a b = Ok ab /\ mat_mul a c = Ok ac /\
+                    mat_mul a s = Ok p /\ madd ab ac = Ok p.
+Proof. exact (@MatrixExt.mat_mul_add_distr_l). Qed.
+Check mat_mul_add_distr_l : forall (A : Arith), RingLaws A -> forall a b c : matrix A,
+  wf a -> wf b -> wf c -> cols a = rows b -> rows b = rows c -> cols b = cols c ->
+  exists s ab ac p, madd b c = Ok s /\ mat_mul a b = Ok ab /\ mat_mul a c = Ok ac /\
+                    mat_mul a s = Ok p /\ madd ab ac = Ok p.
+Print Assumptions mat_mul_add_distr_l.
+Example mat_mul_assoc_nonvacuous :
+  RingLaws AQ /\ wf (mkM (A:=AQ) (repeat (q 1 2) 6) 2 3) /\ wf (mkM (A:=AQ) (repeat (q 2 3) 15) 3 5) /\
+  wf (mkM (A:=AQ) (repeat (q 3 1) 5) 5 1).
+Proof. split; [constructor; exact (F_R AQ_field)|]. repeat split. Qed.
+
 (* ---------- norms (functions.rs) = their textbook definitions ----------
    over any arithmetic whose comparison satisfies the two order laws [OrdLaws] (irreflexive; a < b and c <= a
    give c <= b): "N bounds every member and is 0 or a member" = N is the maximum of 0 and the family.
